@@ -365,6 +365,24 @@ class Program:
         """All bodies nested (transitively) inside `path`, including itself."""
         return [b for p, b in self.bodies.items() if p == path or p.startswith(path + "::{")]
 
+    def nested_of(self, body):
+        """`body` and every closure / coroutine constructed (transitively) in its blocks — also correct for an
+        inlined view, whose blocks may construct closures of the inlined helpers"""
+        out, seen, work = [], set(), [body]
+        while work:
+            b = work.pop()
+            if id(b) in seen:
+                continue
+            seen.add(id(b))
+            out.append(b)
+            for blk in b.blocks:
+                for s in blk["stmts"]:
+                    if s["k"] == "assign" and s["rv"]["k"] == "agg" and s["rv"].get("ak") in ("closure", "coroutine", "coroutine_closure"):
+                        nb = self.by_id.get(s["rv"].get("def_id")) or self.bodies.get(s["rv"].get("def"))
+                        if nb is not None and id(nb) not in seen:
+                            work.append(nb)
+        return out
+
     def const_bits(self, path):
         c = self.consts.get(path)
         if c is None or "bits" not in c:
